@@ -27,6 +27,11 @@ structure Tab (K V : Type) where
   m : OMap K V
   its : List (Iter K V)
   autoSort : Bool
+  /-- code-version switch (finding R3): `false` = `OrderedHashtable::MoveIterationEntryToCorrectPositionAux` ignores
+      `_autoSortEnabled` (util/Hashtable.h as of this writing: `Put` on an existing key re-positions the entry even
+      when auto-sort is off); `true` = it returns immediately when auto-sort is off (proposed repair).  The
+      correspondence harness probes the real code and passes the answer on the `init` line. -/
+  respectFlag : Bool := false
 
 section
 variable {K V : Type} [DecidableEq K]
@@ -125,6 +130,11 @@ def reposition (tb : Tab K V) (k : K) : Tab K V :=
     let r := repositionM lt tb.m k
     if r.2 then { (tb.patch k) with m := r.1 } else tb
 
+/-- the CRTP hook `MoveIterationEntryToCorrectPositionAux(e)` as `PutAux` (and a repaired `SwapWithTable`) call it
+    after giving the existing entry `k` a new value -/
+def valueChanged (tb : Tab K V) (k : K) : Tab K V :=
+  if tb.respectFlag && !tb.autoSort then tb else tb.reposition lt? k
+
 /-- `InsertIterationEntryAux` of the table kind -/
 def linkNew (tb : Tab K V) (k : K) (v : V) : OMap K V :=
   match lt? with
@@ -133,7 +143,7 @@ def linkNew (tb : Tab K V) (k : K) (v : V) : OMap K V :=
 
 /-- `HashtableMid::PutAux` (growth is invisible here) -/
 def putAux (tb : Tab K V) (k : K) (v : V) : Tab K V :=
-  if has tb.m k then reposition lt? { tb with m := setVal tb.m k v } k
+  if has tb.m k then valueChanged lt? { tb with m := setVal tb.m k v } k
   else { tb with m := linkNew lt? tb k v }
 
 def putAtFront (tb : Tab K V) (k : K) (v : V) : Tab K V := (putAux lt? tb k v).moveFrontAux k
